@@ -49,6 +49,24 @@ if os.path.exists(ms):
     o.append("")
     o.append("Caught mutants by reporting check: "+', '.join("%s %d"%(k,v) for k,v in sorted(byp.items()))+".\n")
     txt+='\n'.join(o)+'\n'
+ms2=V+'/seeded/mutation-sweep-2.json'
+if os.path.exists(ms2):
+    d=json.load(open(ms2))
+    sm=d['summary']
+    o=["", "**Second sweep** (other random picks, `--seed 777`, base commit %s): %d mutants that build, **%d caught by a check, %d suite only, %d survive both**. One gap (closed, and the source of repair 4675a6b), mapping gaps, the rest equivalent or outside the listed properties. Three mutants that break DTLS 1.3 record reading altogether make the checks end at their wall-clock watchdog: INCONCLUSIVE (exit 2), which is not a pass but not a VIOLATION line either.\n" % (d.get('base_commit','?'), len(d['mutants']), sm.get('caught',0), sm.get('missed-suite-catches',0), sm.get('SURVIVES-BOTH',0))]
+    o.append("| mutant | function | status | verdict |")
+    o.append("|---|---|---|---|")
+    for m in d['mutants']:
+        if m['status']=='caught' or m['status']=='does-not-build':
+            continue
+        o.append("| `%s:%d` %s | %s | %s | %s |"%(m['file'].split('/')[-1], m['line'], m['op'].replace('|','\\|'), m['func'], {'SURVIVES-BOTH':'survives both','missed-suite-catches':'suite only'}[m['status']], m.get('triage','(not triaged)')))
+    byp={}
+    for m in d['mutants']:
+        if m['status']=='caught':
+            byp[m['caught_by']]=byp.get(m['caught_by'],0)+1
+    o.append("")
+    o.append("Caught mutants by reporting check (second sweep): "+', '.join("%s %d"%(k,v) for k,v in sorted(byp.items()))+".\n")
+    txt+='\n'.join(o)+'\n'
 s=open(V+'/DESIGN.md').read()
 a=s.index('## 9. Sensitivity'); b=s.index('## Appendix A')
 open(V+'/DESIGN.md','w').write(s[:a]+txt+'\n'+s[b:])
